@@ -337,6 +337,8 @@ def check(ctx):
                     ctx.ob("field.class-state", fn, n.ast, False, "class-level state of %s is mutated at run time" % ap[1][0], node=n)
 
     check_fresh_defaults(ctx)
+    from .common import check_own_tables
+    check_own_tables(ctx)       # shared clause: the field table to_tree reads / the tables configurations must not share
 
     # ---------------------------------------------------------------- C13.3
     nmut = 0
